@@ -203,10 +203,15 @@ def c18_code(e):
 
 
 def impl_write(kvs, ly):
+    """([0] + bytes written | [error code], the count write() returned)"""
+    import io
+
     try:
-        return [0] + list(build_top(kvs, ly).tobytes())
+        fp = io.BytesIO()
+        n = build_top(kvs, ly).write(fp)
+        return [0] + list(fp.getvalue()), n
     except Exception as e:
-        return [c18_code(e)]
+        return [c18_code(e)], -1
 
 
 def impl_tokens(data):
@@ -706,17 +711,153 @@ def embedded_check(ck, blobs):
         logging.disable(logging.NOTSET)
 
 
+# ------------------------------------------------------------------ generated trees embedded in a type layer
+class Hosts:
+    """hosts for generated engine data: a hand-built TypeToolObjectSetting, the type-tool block of a fixture
+    (tests/psd_files/layers/type-layer.psd) and that whole document"""
+
+    def __init__(self):
+        import io
+        import logging
+
+        from psd_tools.psd.descriptor import DescriptorBlock, RawData
+        from psd_tools.psd.descriptor import String as DString
+        from psd_tools.psd.tagged_blocks import TypeToolObjectSetting
+
+        self.T = TypeToolObjectSetting
+        td = DescriptorBlock(classID=b"TxLr")
+        td[b"Txt "] = DString("Hello\rworld")
+        td[b"EngineData"] = RawData(b"")
+        td[b"After"] = DString("item behind the engine data")
+        hand = TypeToolObjectSetting(version=1, transform=(1.0, 0.0, 0.0, 1.0, 10.0, 20.0), text_version=50, text_data=td,
+                                     warp_version=1, warp=DescriptorBlock(classID=b"warp"), left=1, top=2, right=3, bottom=4)
+        self.blocks = {"hand-built": hand.tobytes()}
+        self.doc = os.path.join(core.REPO, "tests", "psd_files", "layers", "type-layer.psd")
+        self.doc_bytes = None
+        if os.path.exists(self.doc):
+            self.doc_bytes = open(self.doc, "rb").read()
+            logging.disable(logging.CRITICAL)
+            try:
+                from psd_tools import PSDImage
+
+                psd = PSDImage.open(io.BytesIO(self.doc_bytes))
+                layer = [x for x in psd.descendants() if x.kind == "type"][0]
+                self.blocks["fixture"] = layer._data.tobytes()
+            except Exception:
+                self.doc_bytes = None
+            finally:
+                logging.disable(logging.NOTSET)
+
+
+def tail_fields(blk):
+    return (blk.warp_version, blk.warp.tobytes(), blk.left, blk.top, blk.right, blk.bottom,
+            [bytes(k) for k in blk.text_data.keys()])
+
+
+def embedded_tree(ck, hosts, kvs, with_doc):
+    """the generated tree as the engine data of a type-tool block / of a saved document: the length marker delimits
+    exactly the written engine data; re-reading exposes an equal EngineData tree and leaves the rest of the block alone"""
+    import io
+    import logging
+
+    m = ED()
+    t = ("D", kvs)
+    exp = canon_py(t, norm=True)
+    tiny = has_tiny(t)
+    try:
+        vb = build_top(kvs, 0).tobytes()
+    except Exception:
+        return  # reported by oracle_tree
+    logging.disable(logging.CRITICAL)
+    try:
+        for host, template in hosts.blocks.items():
+            inp = {"tree": jtree(t), "layout": 0, "embed": "block:" + host}
+            ck.count("embedded-generated:block:" + host)
+            try:
+                blk = hosts.T.frombytes(template)
+                ref = tail_fields(blk)
+                blk.text_data[b"EngineData"].value = build_top(kvs, 0)
+                data = blk.tobytes()
+            except Exception as e:
+                ck.fail("embedded-gen-write-raises", inp, repr(e), "block bytes")
+                continue
+            # independent look at the bytes: descriptor item 'EngineData' 'tdta' <u32 length> <data>
+            i = data.find(b"\x00\x00\x00\x0aEngineDatatdta")
+            n = struct.unpack(">I", data[i + 18:i + 22])[0] if i >= 0 else -1
+            if i < 0 or n != len(vb) or data[i + 22:i + 22 + len(vb)] != vb:
+                ck.fail("embedded-gen-length-marker", inp, {"marker": n, "engine_data_bytes": len(vb)},
+                        "length marker == number of engine-data bytes, followed by exactly those bytes")
+            try:
+                back = hosts.T.frombytes(data)
+                v2 = back.text_data.get(b"EngineData").value
+            except Exception as e:
+                ck.fail("embedded-gen-reread-raises", inp, repr(e), "the block re-reads")
+                continue
+            if not isinstance(v2, m.EngineData):
+                ck.fail("embedded-gen-not-exposed", inp, type(v2).__name__, "an EngineData object after re-reading")
+                continue
+            if norm_canon(canon_obj(v2)) != exp:
+                ck.fail("embedded-gen-tree-differs", inp, norm_canon(canon_obj(v2))[:200], exp[:200])
+            elif not tiny and v2.tobytes() != vb:
+                ck.fail("embedded-gen-bytes-differ", inp, list(v2.tobytes()[:300]), list(vb[:300]))
+            if tail_fields(back) != ref:
+                ck.fail("embedded-gen-block-fields-changed", inp, repr(tail_fields(back))[:300], repr(ref)[:300])
+            elif not tiny and back.tobytes() != data:
+                ck.fail("embedded-gen-block-rewrite-differs", inp, len(back.tobytes()), len(data))
+        if with_doc and hosts.doc_bytes is not None:
+            from psd_tools import PSDImage
+
+            inp = {"tree": jtree(t), "layout": 0, "embed": "document:layers/type-layer.psd"}
+            ck.count("embedded-generated:document")
+            try:
+                psd = PSDImage.open(io.BytesIO(hosts.doc_bytes))
+                layer = [x for x in psd.descendants() if x.kind == "type"][0]
+                layer._data.text_data[b"EngineData"].value = build_top(kvs, 0)
+                f = io.BytesIO()
+                psd.save(f)
+            except Exception as e:
+                ck.fail("embedded-gen-save-raises", inp, repr(e), "a saved document")
+                return
+            try:
+                f.seek(0)
+                psd2 = PSDImage.open(f)
+                layer2 = [x for x in psd2.descendants() if x.kind == "type"][0]
+                v2 = layer2._engine_data
+            except Exception as e:
+                ck.fail("embedded-gen-document-reopen-raises", inp, repr(e), "the saved document opens again")
+                return
+            if not isinstance(v2, m.EngineData):
+                ck.fail("embedded-gen-document-not-exposed", inp, type(v2).__name__, "an EngineData object after reopening")
+            elif norm_canon(canon_obj(v2)) != exp:
+                ck.fail("embedded-gen-document-tree-differs", inp, norm_canon(canon_obj(v2))[:200], exp[:200])
+            elif not tiny and v2.tobytes() != vb:
+                ck.fail("embedded-gen-document-bytes-differ", inp, list(v2.tobytes()[:300]), list(vb[:300]))
+            elif len(list(psd2.descendants())) != len(list(psd.descendants())):
+                ck.fail("embedded-gen-document-layers-changed", inp, len(list(psd2.descendants())), len(list(psd.descendants())))
+    finally:
+        logging.disable(logging.NOTSET)
+
+
 # ------------------------------------------------------------------ oracle (independent of the model)
 def oracle_tree(ck, kvs, ly):
     """frombytes(tobytes(t)) == t (decimals to 8 places) and tobytes is a fixpoint; returns written bytes or None"""
     inp = {"tree": jtree(("D", kvs)), "layout": ly}
     cls = top_cls(ly)
     try:
+        import io
+
         obj = build_top(kvs, ly)
-        b = obj.tobytes()
+        fp = io.BytesIO()
+        n = obj.write(fp)
+        b = fp.getvalue()
     except Exception as e:
         ck.fail("write-raises", inp, repr(e), "bytes")
         return None
+    # the count write() returns is what RawData / write_length_block record as the length of embedded engine data
+    if n != len(b):
+        ck.fail("write-count-wrong", inp, {"returned": n, "bytes_written": len(b)}, "returned count == bytes written")
+    if obj.tobytes() != b:
+        ck.fail("tobytes-differs-from-write", inp, list(obj.tobytes()[:200]), list(b[:200]))
     try:
         back = cls.frombytes(b)
         got = norm_canon(canon_obj(back))
@@ -796,7 +937,8 @@ def _run(ck):
     ck.rule = ("trees: every string over the critical alphabet {a ( ) \\ CR U+015C U+5C5C U+2829 U+FEFF NUL U+295C} up to the "
                "tier's length, the same strings in every container position, int/decimal/bool/property/tag tables, "
                "hand-written container shapes (incl. the former F-C18-2 class), random trees up to the tier's depth (a quarter "
-               "with mixed lists), depth-forcing spines, random Unicode strings incl. astral; each x both layouts; "
+               "with mixed lists), depth-forcing spines, random Unicode strings incl. astral; each x both layouts, the count returned by write() compared with the bytes written; each tree also "
+               "embedded as the engine data of a hand-built and a fixture type-tool block (all) and of a saved document (a sample); "
                "bytes: fixture engine-data blobs, a malformed corpus and byte-mutated written outputs; "
                "non-trivial = tree with >= 2 containers or a string whose UTF-16BE bytes contain ( ) or \\")
     ok = ck.coq_build(["theories/Engine/Corr.v", "theories/Properties/C18.v"])
@@ -805,6 +947,7 @@ def _run(ck):
     thorough = ck.tier == "thorough"
     # ---------------- trees x layouts: oracle + write / tokens / parse correspondence
     wcases, tcases, pcases, seeds = [], [], [], []
+    hosts = Hosts()
     ntree = 0
     for tag, kvs in gen_trees(ck):
         ntree += 1
@@ -813,11 +956,14 @@ def _run(ck):
         in_domain = wf_tree(t)
         if not in_domain:
             ck.count("guard:outside the property's domain (name / tag form)")
+        if in_domain:
+            every = 4 if thorough else 12
+            embedded_tree(ck, hosts, kvs, with_doc=(tag in ("shape", "int", "float", "bool", "tag", "prop") or ntree % every == 0))
         for ly in (0, 1):
             if in_domain:
                 oracle_tree(ck, kvs, ly)
-            w = impl_write(kvs, ly)
-            wcases.append(((ly, kvs), [h63_list(0, w)]))
+            w, wn = impl_write(kvs, ly)
+            wcases.append(((ly, kvs), [h63_list(0, w), wn]))
             if w[0] == 0:
                 data = w[1:]
                 tcases.append(((ly, kvs), [h63_list(0, impl_tokens(data))]))
@@ -836,8 +982,8 @@ def _run(ck):
         if dp >= 2 or has_special_string(t):
             ck.nontriv(repr(kvs))
         if ntree in (700, 1800, 2500):
-            ck.sample({"tree": jtree(t), "EngineData": bytes(impl_write(kvs, 0)[1:120]).decode("latin1"),
-                       "EngineData2": bytes(impl_write(kvs, 1)[1:120]).decode("latin1")})
+            ck.sample({"tree": jtree(t), "EngineData": bytes(impl_write(kvs, 0)[0][1:120]).decode("latin1"),
+                       "EngineData2": bytes(impl_write(kvs, 1)[0][1:120]).decode("latin1")})
     for name, fn, cs in (("write", "write_dig", wcases), ("tokens_of_written", "tokw_dig", tcases),
                          ("parse_of_written", "parsew_dig", pcases)):
         bad = ck.correspond(name, fn, IMPORTS, cs, wcase_lit, chunk=600)
@@ -997,8 +1143,20 @@ def replay(path):
             back = cls.frombytes(b)
             print("frombytes ->", back)
             print("equal (8 places):", norm_canon(canon_obj(back)) == canon_py(t, norm=True), "| rewrite identical:", back.tobytes() == b)
+            import io
+
+            fp = io.BytesIO()
+            print("write() returned", build_top(t[1], ly).write(fp), "| bytes written", len(fp.getvalue()))
         except Exception as e:
             print("raises", repr(e))
+        if "embed" in inp:
+            class _P:
+                def fail(self, kind, i, obs, exp, **k):
+                    print("embedded (%s):" % i.get("embed"), kind, "| observed", str(obs)[:200], "| expected", str(exp)[:200])
+
+                def count(self, *a, **k):
+                    pass
+            embedded_tree(_P(), Hosts(), t[1], with_doc=True)
     elif "string" in inp:
         m = ED()
         w = m.String(inp["string"]).tobytes()
